@@ -5,9 +5,13 @@ variant-level attributes; each family has compiling twins; gapless and with-hole
 from lib import runner
 from rules.ctx import Ctx
 from corpus import rejects as RJ
+from rules import gtypestate
+from rules.facts import Crate
+import os
 
 PROP = 'C13'
 FLOOR = 500
+PARSER_FLOOR = 18
 
 def construct(c):
     k = c['class'].split('/')[0]
@@ -24,11 +28,21 @@ def main(tier, seed, t0):
     runner.judge_batch(ctx, cases, r, PROP, construct)
     if len(cases) < FLOOR:
         ctx.error('witness count %d below floor %d' % (len(cases), FLOOR))
+    # generator typestate on the resolved MIR of /repo itself
+    gst, gd = runner.stage_gmir()
+    fp = os.path.join(gd, 'facts', 'enum_tools.json')
+    n_parsers = 0
+    if os.path.exists(fp):
+        n_parsers = gtypestate.check(Crate(fp), ctx)
+        if n_parsers < PARSER_FLOOR:
+            ctx.error('only %d functions call FeatureParser::get, floor is %d' % (n_parsers, PARSER_FLOOR))
+    else:
+        ctx.error('generator facts missing')
     for c in [c for c in cases if c['expect'] == 'reject'][::97][:6]:
         ctx.sample({'case': c['id'], 'class': c['class'], 'source': ' '.join(c['body'])[:300], 'errors': [e['message'] for e in r['results'][c['id']]['errors']][:3]})
     return runner.finish(PROP, tier, seed, 'other', ctx, t0,
-                         explanation='%d witnesses (%d reject, %d compiling twins) compiled in two rustc runs. Families: unknown / duplicated / wrong-kind parameter for each of the 18 parsers, vis and mode outside the documented lists, feature repeated in one attribute and across attributes, unknown features, range without iter / with table_inline, iter(mode="range") on enums with holes including i64/i128 gaps of 2^63 and more, non-list attribute forms, every variant-level form other than rename = "literal". A reject case passes only if the derive raises an error located in its module.' % (
-                             len(cases), len([c for c in cases if c['expect'] == 'reject']), len([c for c in cases if c['expect'] == 'accept'])),
-                         coverage_extra={'witnesses': len(cases), 'cache_hit': st.hit, 'tree': st.tree},
+                         explanation='%d witnesses (%d reject, %d compiling twins) compiled in two rustc runs. Families: unknown / duplicated / wrong-kind parameter for each of the 18 parsers, vis and mode outside the documented lists, feature repeated in one attribute and across attributes, unknown features, range without iter / with table_inline, iter(mode="range") on enums with holes including i64/i128 gaps of 2^63 and more, non-list attribute forms, every variant-level form other than rename = "literal". A reject case passes only if the derive raises an error located in its module. In addition the generator\'s own MIR is checked for the linear typestate: in each of the %d parsers the Params from FeatureParser::get is moved into Params::finish on every normal path, Derive::parse calls FeatureParser::finish after the last parser on every path, and every iteration of the leftover loops in both finish functions reaches Diagnostic::emit - which closes the quantifier over unknown parameter and feature names.' % (
+                             len(cases), len([c for c in cases if c['expect'] == 'reject']), len([c for c in cases if c['expect'] == 'accept']), n_parsers),
+                         coverage_extra={'witnesses': len(cases), 'parsers_with_typestate': n_parsers, 'cache_hit': st.hit, 'tree': st.tree},
                          nontrivial_rule='distinct (malformation kind, feature) classes',
                          assumptions=['rustc accept/reject of a witness is the observation'])
